@@ -254,7 +254,7 @@ func adminCmd(r *mon.Rng, st *state) string {
 		k := fmt.Sprintf("agg%d", st.n)
 		st.n++
 		return fmt.Sprintf("addAgg %s regex=%s %s %s %s%s", r.Pick(funcs), r.Pick([]string{"^foo", "(.*)", "^(a", "", "^servers\\.(.*)"}), "out."+k+r.Pick([]string{"", ".$1", ".$9", ".${1}"}),
-			r.Pick(nums), r.Pick(nums), r.Pick([]string{"", " cache=true", " cache=false", " dropRaw=true", " cache=maybe"}))
+			r.Pick(nums), r.Pick(nums), r.Pick([]string{"", " cache=true", " cache=true", " cache=false", " cache=maybe"})+r.Pick([]string{"", " dropRaw=true", " dropRaw=false"}))
 	case 3: // carbon route with boundary destination options
 		k := fmt.Sprintf("r%d", st.n)
 		st.n++
@@ -618,6 +618,82 @@ func underTraffic(port int, r *mon.Rng, f func()) {
 	wg.Wait()
 }
 
+func storm(port int, r *mon.Rng, d time.Duration) {
+	var wg sync.WaitGroup
+	end := time.Now().Add(d)
+	for c := 0; c < 4; c++ {
+		data := goodTraffic(r, 400)
+		wg.Add(1)
+		go func() {
+			defer wg.Done()
+			conn, err := dial(port)
+			if err != nil {
+				return
+			}
+			defer conn.Close()
+			for time.Now().Before(end) {
+				conn.SetWriteDeadline(time.Now().Add(2 * time.Second))
+				if _, err := conn.Write(data); err != nil {
+					return
+				}
+				time.Sleep(5 * time.Millisecond)
+			}
+		}()
+	}
+	wg.Wait()
+}
+
+// mapRaces reads the race detector's reports of a relay child. A report in which one of the two accesses is a
+// map operation of the Go runtime is a latent crash: the runtime ends the process with "fatal error: concurrent
+// map read and map write" / "concurrent map writes" whenever it notices the same thing itself. Returns one
+// signature (first relay frame below the map access) per such report, and the number of other reports.
+func mapRaces(dir string) (sigs []string, excerpts []string, other int) {
+	files, _ := filepath.Glob(filepath.Join(dir, "relayrace.*"))
+	for _, f := range files {
+		b, err := os.ReadFile(f)
+		if err != nil {
+			continue
+		}
+		for _, blk := range strings.Split(string(b), "WARNING: DATA RACE")[1:] {
+			if i := strings.Index(blk, "=================="); i >= 0 {
+				blk = blk[:i]
+			}
+			isMap := false
+			frame := ""
+			for _, sec := range strings.Split(blk, "\n\n") {
+				lines := strings.Split(strings.TrimSpace(sec), "\n")
+				if len(lines) < 2 || !(strings.Contains(lines[0], "by goroutine") || strings.Contains(lines[0], "by main goroutine")) {
+					continue
+				}
+				top := strings.TrimSpace(lines[1])
+				if strings.HasPrefix(top, "runtime.map") {
+					isMap = true
+					for _, l := range lines[1:] {
+						l = strings.TrimSpace(l)
+						if strings.HasPrefix(l, "github.com/grafana/carbon-relay-ng/") {
+							frame = strings.TrimPrefix(l, "github.com/grafana/carbon-relay-ng/")
+							if k := strings.LastIndex(frame, "("); k > 0 {
+								frame = frame[:k]
+							}
+							break
+						}
+					}
+				}
+			}
+			if isMap && frame != "" {
+				sigs = append(sigs, frame)
+				if len(blk) > 3000 {
+					blk = blk[:3000]
+				}
+				excerpts = append(excerpts, blk)
+			} else {
+				other++
+			}
+		}
+	}
+	return
+}
+
 func sendUDP(port int, data []byte) {
 	c, err := net.Dial("udp", fmt.Sprintf("127.0.0.1:%d", port))
 	if err != nil {
@@ -673,6 +749,27 @@ func runChild(res *mon.Result, bin string, idx int, base string) {
 	os.RemoveAll(dir)
 	os.MkdirAll(filepath.Join(dir, "spool"), 0755)
 	defer os.RemoveAll(dir)
+	var lastHistory *[]string
+	defer func() {
+		sigs, ex, other := mapRaces(dir)
+		res.Count("relay_race_reports_not_on_maps", other)
+		seen := map[string]bool{}
+		for i, sg := range sigs {
+			if seen[sg] {
+				continue
+			}
+			seen[sg] = true
+			w := map[string]interface{}{"child": idx, "race_report": ex[i]}
+			if lastHistory != nil {
+				h := *lastHistory
+				if len(h) > 6 {
+					h = h[len(h)-6:]
+				}
+				w["last_batches"] = h
+			}
+			res.Violate("relay-map-race:"+sg, fmt.Sprintf("child %d: the race detector saw an unsynchronised map access in the relay under plain traffic (%s); the Go runtime ends the process with \"fatal error: concurrent map ...\" when it notices one", idx, sg), w)
+		}
+	}()
 	st := &state{deadPort: freePort()}
 	st.schemas = filepath.Join(dir, "storage-schemas.conf")
 	st.aggconf = filepath.Join(dir, "storage-aggregation.conf")
@@ -694,6 +791,7 @@ func runChild(res *mon.Result, bin string, idx int, base string) {
 		return
 	}
 	var history []string
+	lastHistory = &history
 	witness := func(extra map[string]interface{}) map[string]interface{} {
 		w := map[string]interface{}{"child": idx, "config": config}
 		h := history
@@ -845,6 +943,23 @@ func runChild(res *mon.Result, bin string, idx int, base string) {
 				del()
 			}
 			res.Count("http_admin_requests", 1)
+		}
+		if b%8 == 5 {
+			// sustained traffic on four connections at once, long enough to cross a second boundary: whatever per-second
+			// or per-name state the table's entries keep is then touched from several input goroutines at the same time
+			if r.Chance(1, 2) {
+				// make sure some storms meet an aggregation that keeps shared per-name state (match cache, raw
+				// lines consumed on the input goroutines)
+				c := fmt.Sprintf("addAgg %s regex=^(servers|stats|foo)\\.(.*) out.storm%d.$2 %d %d cache=true dropRaw=%v", r.Pick([]string{"sum", "avg", "max", "count"}), b, r.PickInt([]int{1, 5, 10}), r.PickInt([]int{2, 20}), r.Bool())
+				history = append(history, fmt.Sprintf("admin %q", c))
+				res.LogCase("child %d batch %d: admin %q", idx, b, c)
+				rl.adminSend(c)
+				res.Count("admin_commands_sent", 1)
+			}
+			history = append(history, "storm: 4 connections streaming valid lines for 1.2s")
+			res.LogCase("child %d batch %d: storm", idx, b)
+			storm(p.plain, r, 1200*time.Millisecond)
+			res.Count("storms", 1)
 		}
 		// ordinary traffic exercising whatever the table now contains
 		gt := goodTraffic(r, 150)
